@@ -282,6 +282,10 @@ def handle (op : String) (args res : List String) : Option Verdict :=
       if okS && cl o.m12b m12b (1 + Float.abs sig12) && cl o.m0 m0 1 && cl o.M12 M12 (1 + Float.abs sig12) && cl o.M21 M21 (1 + Float.abs sig12) then .ok
       else .bad s!"Geodesic::Lengths: impl=({s12b},{m12b},{m0},{M12},{M21}) model=({o.s12b},{o.m12b},{o.m0},{o.M12},{o.M21})"
     | _, _, _ => .bad "parse"
+  | "gsolvei" => some <|
+    match res with
+    | ["0", "12"] => .ok
+    | _ => .bad s!"GeodSolve -i: exit status / number of output fields = {res} (expected 0 and 12)"
   | "gsolve" => some <|
     -- tools/GeodSolve run in-process by the harness: one output line with the twelve fields of `-f`; the values are compared with the library call by the harness
     match res with
